@@ -414,9 +414,28 @@ fn failing() -> impl Strategy<Value = Expr> {
     ]
 }
 
+/// A fact inside an exponent and inside function arguments: `T ^ round(A / B)`, `round(A / B, n) * C`, with A, B
+/// plain-number facts (populations, pi ...).  Every phrase is looked up once for the value that enters the
+/// computation, wherever in the expression it stands.
+fn fact_in_exponent_or_call() -> impl Strategy<Value = Expr> {
+    (any::<u16>(), any::<u16>(), any::<u16>(), 1i64..=3, 0u8..4, -2i64..=2).prop_map(|(i, j, k, t, form, n)| {
+        let p = pool();
+        let plain: Vec<usize> = (0..p.all.len()).filter(|x| p.plain[*x] && !p.zero[*x]).collect();
+        let fact = |x: u16| Expr::Fact(p.all[plain[pick_idx(x, plain.len())]].0.clone());
+        let ratio = Expr::bin(Op::Div, fact(i), fact(j));
+        match form {
+            0 => Expr::PowE(Box::new(Expr::num(t)), Box::new(Expr::Call("round", vec![ratio]))),
+            1 => Expr::PowE(Box::new(Expr::Paren(Box::new(fact(k)))), Box::new(Expr::Call("round", vec![Expr::bin(Op::Div, fact(i), fact(i))]))),
+            2 => Expr::bin(Op::Mul, Expr::Call("round", vec![ratio, Expr::num(n)]), fact(k)),
+            _ => Expr::bin(Op::Sub, Expr::Call("floor", vec![ratio.clone()]), Expr::Call("ceil", vec![ratio])),
+        }
+    })
+}
+
 pub fn exprs() -> impl Strategy<Value = Vec<Expr>> {
     prop_oneof![
         5 => expression().prop_map(|e| vec![e]),
+        1 => fact_in_exponent_or_call().prop_map(|e| vec![e]),
         1 => prop::collection::vec(expression(), 2..=3),
         // successes followed (or preceded) by a failing expression in the same query
         1 => (prop::collection::vec(expression(), 1..=2), failing(), any::<bool>()).prop_map(|(mut v, f, last)| {
@@ -430,8 +449,26 @@ pub fn exprs() -> impl Strategy<Value = Vec<Expr>> {
     ]
 }
 
+/// `<number> <phrase>` for a phrase that is not a unit expression: today an error; whatever it is, a value that
+/// comes out of such a query has used the fact and must say so.
+fn juxtaposed(phrase: &str) -> CaseReport {
+    let q = format!("2 {}", phrase);
+    if matches!(crate::tool::parse_compound(phrase), Ok(Ok(_))) {
+        return CaseReport::pass(&q, false, vec!["phrase-is-a-unit-expression(skipped)"]);
+    }
+    let run = match run_full(shared_db(), &q, true) {
+        Ok(r) => r,
+        Err(p) => return CaseReport::fail(&q, "panic", json!({"query": q, "panic": p})),
+    };
+    let any_value = run.results.iter().any(|r| r.is_ok());
+    if any_value && !run.descs.iter().any(|d| phrase.contains(d.phrase.as_str()) || d.phrase.contains(phrase)) {
+        return CaseReport::fail(&q, "value-from-a-phrase-without-a-description", json!({"query": q, "results": results_json(&run.results), "descriptions": run.descs.iter().map(|d| d.phrase.clone()).collect::<Vec<_>>()}));
+    }
+    CaseReport::pass(&q, true, vec![if any_value { "number-juxtaposed-with-a-phrase(value, described)" } else { "number-juxtaposed-with-a-phrase(refused)" }])
+}
+
 pub fn run_check(ctx: &Ctx) {
-    ctx.set_rule("expressions mixing literals, quantities and typable fact phrases with + - * /, parentheses and `to` (also 2-3 parenthesised expressions in one query): results with and without descriptions are equal, no description is recorded when disabled, descriptions are exactly the phrases used (multiset, grouped per result; a sub-multiset when a result is an error), each paired with the constant the phrase returns when asked alone, and the value equals the reference evaluation with phrases replaced by those constants; a failing expression among successful ones takes no description away from them; histories: shuffled lists of such queries (plus clusters of phrases sharing a long prefix, and of phrases differing only in letter case or in the case of an inserted and/or/not) against one database instance give each query the result it has on a fresh instance; non-trivial = >=2 phrases or a history with a repeated query; distinct by query text");
+    ctx.set_rule("expressions mixing literals, quantities and typable fact phrases with + - * /, parentheses and `to` (also 2-3 parenthesised expressions in one query; facts inside exponents and function arguments; a number written directly in front of every phrase): results with and without descriptions are equal, no description is recorded when disabled, descriptions are exactly the phrases used (multiset, grouped per result; a sub-multiset when a result is an error), each paired with the constant the phrase returns when asked alone, and the value equals the reference evaluation with phrases replaced by those constants; a failing expression among successful ones takes no description away from them; histories: shuffled lists of such queries (plus clusters of phrases sharing a long prefix, and of phrases differing only in letter case or in the case of an inserted and/or/not) against one database instance give each query the result it has on a fresh instance; non-trivial = >=2 phrases or a history with a repeated query; distinct by query text");
     let corpus: Vec<(String, DCase)> = load_corpus("C18");
     let cases: Vec<DCase> = corpus.into_iter().map(|c| c.1).collect();
     ctx.run_list("corpus", &cases, |c| check_on(shared_db(), c), |c| to_json(c));
@@ -447,6 +484,10 @@ pub fn run_check(ctx: &Ctx) {
         },
         |es| make_case(es).map(|c| to_json(&c)).unwrap_or(Value::Null),
     );
+    {
+        let p = pool();
+        ctx.run_enum("number-juxtaposed-with-a-phrase", p.all.len() as u64, |i| Some(p.all[i as usize].0.clone()), |ph| juxtaposed(ph), |ph| json!({"juxtaposed": ph}));
+    }
     // histories
     let nh = ctx.tier.pick(160usize, 3000);
     let per_shard = (nh + ctx.threads - 1) / ctx.threads;
@@ -580,6 +621,10 @@ fn history(qs: &[&DCase]) -> CaseReport {
 }
 
 pub fn replay(ctx: &Ctx, case: &Value) {
+    if let Some(ph) = case.get("juxtaposed").and_then(|v| v.as_str()) {
+        ctx.run_list("replay", &[ph.to_string()], |ph| juxtaposed(ph), |ph| json!({"juxtaposed": ph}));
+        return;
+    }
     if let Some(h) = case.get("history") {
         // re-run the history: queries are re-derived from their text against the reference
         let qs: Vec<String> = serde_json::from_value(h.clone()).expect("history of query strings");
